@@ -99,6 +99,9 @@ class C03(Prop):
             n = w.h(net)
             if n is None or self.skip_rest:
                 return None
+            if state.get("swap"):
+                b_h, v = state.pop("swap")
+                return {"op": "set_name", "on": b_h, "v": v, "tag": "edit"}
             if state["phase"] == 0:
                 state["left"] -= 1
                 if state["left"] <= 0:
@@ -114,6 +117,17 @@ class C03(Prop):
                         k = rng.randrange(1, len(pins))
                         pins = pins[k:] + pins[:k]
                         return {"op": "set_pins", "on": w.handle_of(p), "xs": [w.handle_of(q) for q in pins], "tag": "edit"}
+                if x < 0.8:
+                    # two siblings trade places in the name space: A gets a fresh name and B takes the name that equals
+                    # the identifier the first write recorded on A (references in the file go by identifier)
+                    scopes = [list(n.libraries)] + [list(lib.definitions) for lib in n.libraries]
+                    scopes += [list(getattr(d, acc)) for d in defs for acc in ("children", "cables", "ports")]
+                    scopes = [[e for e in sc if w.handle_of(e) and isinstance(e.get("EDIF.identifier"), str)] for sc in scopes]
+                    scopes = [sc for sc in scopes if len(sc) >= 2]
+                    if scopes:
+                        a, b2 = rng.sample(rng.choice(scopes), 2)
+                        state["swap"] = (w.handle_of(b2), a["EDIF.identifier"])
+                        return {"op": "set_name", "on": w.handle_of(a), "v": "moved_%d" % rng.randint(0, 10 ** 6), "tag": "edit"}
                 kids = [c for d in defs for c in list(d.children) + list(d.cables) if w.handle_of(c)]
                 if kids:
                     c = rng.choice(kids)
